@@ -812,7 +812,20 @@ func ackTimerRaceScenario(il bool, what string) *Scenario {
 			}
 			p.a = m.As[0]
 			rs := p.startReader(1)
-			_ = rs
+			// two more callers blocked in a read of the same stream: an ABORT releases them all
+			var extra []*vsched.Thread
+			if rs != nil && what == "abort" {
+				for i := 0; i < 2; i++ {
+					extra = append(extra, m.Go(fmt.Sprintf("extra-read%d", i), func() {
+						buf := make([]byte, 100)
+						for {
+							if _, _, err := rs.ReadSCTP(buf); err != nil {
+								return
+							}
+						}
+					}))
+				}
+			}
 			m.Sleep(2 * time.Second)
 			// one DATA chunk: the acknowledgement is delayed by 200 ms
 			seq := uint32(p.ssn[1])
@@ -848,6 +861,11 @@ func ackTimerRaceScenario(il bool, what string) *Scenario {
 				}
 				if !ok {
 					m.Failf("hostile.hang", "after an out-of-date FORWARD-TSN that arrived as the delayed-acknowledgement timer expired the endpoint does not answer a HEARTBEAT any more")
+				}
+			}
+			for _, t := range extra {
+				if !t.Done {
+					m.Failf("hostile.hang", "three callers were blocked in a read of stream 1 when the ABORT arrived: %s has not returned 2 s later", t.Name)
 				}
 			}
 			m.Observe("%s", what)
